@@ -116,6 +116,16 @@ UsesEmptyWrongly(G, w, t) ==
   ELSE IF t[4] = <<>> THEN \E cl \in RuleResults(Ctx(G, w), t[2], 0, 0) : Len(cl) = 1 /\ cl[1][1] = "R" /\ cl[1][4] # <<>>
   ELSE \E q \in DOMAIN t[4] : UsesEmptyWrongly(G, w, t[4][q])
 
+\* overlapping terminals (dynamic lexers): the input is a text, inp.toks lists its tokenisations, each a sequence of
+\* <<terminal, offset>>; the derivations of the text are those of all tokenisations, token leaves carrying offsets
+RECURSIVE Reoffset(_, _)
+Reoffset(t, tk) ==
+  IF t[1] = "T" THEN <<"T", t[2], tk[t[3] + 1][2], <<>>>>
+  ELSE IF t[1] # "R" THEN t
+  ELSE <<"R", t[2], 0, [q \in DOMAIN t[4] |-> Reoffset(t[4][q], tk)]>>
+TreesOfText(G, toks) ==
+  UNION { {Reoffset(t, toks[k]) : t \in TreesOfInput(G, [q \in DOMAIN toks[k] |-> toks[k][q][1]])} : k \in DOMAIN toks }
+
 RECURSIVE JudgeObs05(_, _, _, _)
 JudgeObs05(c, obs, trees, k) ==
   IF k > Len(obs) THEN "ok"
@@ -140,7 +150,7 @@ Next ==
   /\ LET c == Cases[tid]
          inp == c.inputs[ii + 1]
          trees == TreesOfInput(c.G, inp.w)
-         v == IF Which = "C05" THEN JudgeObs05(c, inp.obs, trees, 1)
+         v == IF Which = "C05" THEN JudgeObs05(c, inp.obs, IF c.multitok THEN TreesOfText(c.G, inp.toks) ELSE trees, 1)
               ELSE IF Which = "C20" /\ c.cyclic THEN JudgeBnf20(c.G, inp.exp, inp.w, 1)
               ELSE IF Which = "C20" THEN JudgeObs20(inp.exp, trees, c.cyclic, 1)
               ELSE IF Which = "C04" /\ c.cyclic THEN JudgeBnf(c.G, inp.exp, inp.w, 1)
